@@ -45,6 +45,9 @@ def cases(ctx: Ctx):
     (d / "twogroups.ucl").write_text("\n".join(encoders.uclchem(x) for x in two) + "\n")
     (d / "k1.krome").write_text("@format:idx,R,R,P,P,Tmin,Tmax,rate\n1,H,H,H2,,NONE,NONE,1.0d-10*sqrTgas\n")
     (d / "k2.krome").write_text("@common:user_crate,user_Av\n@var:ncolH=1.0d21*user_Av\n@format:idx,R,P,P,rate\n2,H2,H,H,1.0d-17*user_crate*exp(-1.0d0*ncolH/1.0d21)\n")
+    # a user variable defined twice in the header, with a dependent in between: the redefinition replaces the value IN PLACE
+    (d / "k3.krome").write_text("@var:kbase=1.0d-9\n@var:kscaled=2.0d0*kbase\n@var:kbase=3.0d-9\n@format:idx,R,R,P,P,rate\n1,H,H,H2,,kscaled*sqrTgas\n"
+                                "@var:kother=kscaled*kbase\n@format:idx,R,P,P,rate\n2,H2,H,H,kother\n")
     gl = [rec(["H", "H"], ["H2"], 1, a=6.59e-11), rec(["GRAIN0", "e-"], ["GRAIN-"], 20, a=1.0), rec(["C+", "GRAIN-"], ["C", "GRAIN0"], 6, a=1.0),
           rec(["CO"], ["GCO"], 7, a=1.0), rec(["GCO"], ["CO"], 8, a=1.0)]
     (d / "grain.leeds").write_text("\n".join(encoders.leeds(dict(x, tmin=5.0, tmax=41000.0)) for x in gl) + "\n")
@@ -66,6 +69,7 @@ def cases(ctx: Ctx):
         ("uclchem+rr07x two groups", dict(filelist=str(d / "twogroups.ucl"), fileformats="uclchem", grain_model="rr07x", required_species=["C", "O"]), "cvode", "sparse"),
         ("krome two files", dict(filelist=[str(d / "k1.krome"), str(d / "k2.krome")], fileformats="krome"), "cvode", "dense"),
         ("leeds grains+hh93", dict(filelist=str(d / "grain.leeds"), fileformats="leeds", grain_model="hh93"), "cvode", "dense"),
+        ("krome redefined variable", dict(filelist=str(d / "k3.krome"), fileformats="krome"), "cvode", "sparse"),
     ]
     if not ctx.quick:
         out += [
